@@ -4,10 +4,10 @@ import (
 	"bytes"
 	"encoding/json"
 	"errors"
-	"os"
 	"fmt"
 	"math"
 	"math/rand/v2"
+	"os"
 	"slices"
 	"sync"
 	"time"
@@ -71,11 +71,11 @@ type c09 struct {
 	stored []*rhplab.TestSector
 	isStor map[types.Hash256]*rhplab.TestSector
 
-	acctKey types.PrivateKey
-	acct    proto4.Account
-	repl    []proto4.Account // replenish targets (accounts or pools share keys)
-	readOK  map[types.Hash256]bool
-	rng     *rand.Rand
+	acctKey   types.PrivateKey
+	acct      proto4.Account
+	repl      []proto4.Account // replenish targets (accounts or pools share keys)
+	readOK    map[types.Hash256]bool
+	rng       *rand.Rand
 	history   []c09Case // attempts since the last case boundary (for witnesses)
 	histStart int       // contract size at that boundary
 	broken    bool      // host state of the current contract is known to be corrupt
@@ -322,7 +322,7 @@ func (c *c09) attempt(cs c09Case, setup bool) error {
 			c.violation("renter-revision-mismatch:"+cs.Kind, "the revision the renter holds after success is not the host's committed revision", cs,
 				map[string]any{"renter": out.revision, "host": post.State.Revision})
 		}
-		if cs.Kind == "roots" && !slices.Equal(out.listed, c.model[cs.Offset:cs.Offset+cs.Length]) {
+		if cs.Kind == "roots" && (cs.Offset+cs.Length > uint64(len(c.model)) || !slices.Equal(out.listed, c.model[cs.Offset:cs.Offset+cs.Length])) {
 			c.violation("listing-mismatch", "listed roots differ from the model slice", cs,
 				map[string]any{"listed": shortRoots(out.listed), "model": shortRoots(c.model)})
 		}
@@ -483,7 +483,9 @@ func (c *c09) round2(variant string, out *c09Outcome) rhplab.Round2 {
 		}
 	case "r2-wrongkey":
 		out.tamper = "bad-renter-sig"
-		return func(_ types.V2FileContract, h types.Hash256) (types.Signature, bool) { return foreign.SignHash(h), true }
+		return func(_ types.V2FileContract, h types.Hash256) (types.Signature, bool) {
+			return foreign.SignHash(h), true
+		}
 	case "r2-other-revision":
 		out.tamper = "bad-renter-sig"
 		return func(rev types.V2FileContract, _ types.Hash256) (types.Signature, bool) {
